@@ -83,6 +83,8 @@ pub enum SOp {
     GetMut { k: u32 },
     /// look up, keep the reference while the global virtual clock advances by ms, read its ttl
     GetHold { k: u32, ms: u32 },
+    /// look up (get or get_mut) and keep the guard alive for `us` microseconds of real time
+    GetLinger { k: u32, us: u16, mutable: bool },
     Wait,
     Clear,
     Close,
@@ -185,6 +187,7 @@ pub trait Api: Send + Sync {
     fn get(&self, k: K) -> Option<Val>;
     fn get_mut(&self, k: K) -> Option<Val>;
     fn get_hold(&self, k: K, ms: u32) -> Option<(Val, Duration, Duration)>;
+    fn get_linger(&self, k: K, us: u16, mutable: bool) -> Option<Val>;
     fn wait(&self) -> Result<(), String>;
     fn clear(&self) -> Result<(), String>;
     fn close(&self) -> Result<(), String>;
@@ -195,6 +198,13 @@ pub trait Api: Send + Sync {
     fn metrics(&self) -> Option<crate::sut::MetricsView>;
     fn estimate(&self, index: u64) -> i64;
     fn dup(&self) -> Box<dyn Api>;
+}
+
+fn linger(us: u16) {
+    let t0 = std::time::Instant::now();
+    while t0.elapsed() < Duration::from_micros(us as u64) {
+        std::hint::spin_loop();
+    }
 }
 
 fn es<T>(r: Result<T, stretto::CacheError>) -> Result<T, String> {
@@ -229,6 +239,19 @@ where
             clock::advance_global(ms as i64 * 1_000_000);
             (*r.value(), t1, r.ttl())
         })
+    }
+    fn get_linger(&self, k: K, us: u16, mutable: bool) -> Option<Val> {
+        if mutable {
+            self.0.get_mut(&k).map(|r| {
+                linger(us);
+                *r.value()
+            })
+        } else {
+            self.0.get(&k).map(|r| {
+                linger(us);
+                *r.value()
+            })
+        }
     }
     fn wait(&self) -> Result<(), String> {
         es(self.0.wait())
@@ -294,6 +317,19 @@ where
             clock::advance_global(ms as i64 * 1_000_000);
             (*r.value(), t1, r.ttl())
         })
+    }
+    fn get_linger(&self, k: K, us: u16, mutable: bool) -> Option<Val> {
+        if mutable {
+            bo(self.0.get_mut(&k)).map(|r| {
+                linger(us);
+                *r.value()
+            })
+        } else {
+            bo(self.0.get(&k)).map(|r| {
+                linger(us);
+                *r.value()
+            })
+        }
     }
     fn wait(&self) -> Result<(), String> {
         es(bo(self.0.wait()))
@@ -1220,13 +1256,17 @@ fn client(t: usize, kind: Kind, api: Box<dyn Api>, script: &[SOp], sh: &Shared, 
                     }
                 }
             }
-            SOp::Get { k } | SOp::GetMut { k } => {
+            SOp::Get { k } | SOp::GetMut { k } | SOp::GetLinger { k, .. } => {
                 let k = if kind == Kind::Barrier { own_key(t, *k) } else { *k };
                 let stamp = sh.cb.clock.load(Ordering::SeqCst);
                 let gstart = sh.lclock.fetch_add(1, Ordering::SeqCst);
-                let mutable = matches!(op, SOp::GetMut { .. });
+                let mutable = matches!(op, SOp::GetMut { .. } | SOp::GetLinger { mutable: true, .. });
                 progress.enter(t, if mutable { 5 } else { 4 });
-                let r = if mutable { a.get_mut(k as u64) } else { a.get(k as u64) };
+                let r = match op {
+                    SOp::GetLinger { us, mutable, .. } => a.get_linger(k as u64, *us, *mutable),
+                    _ if mutable => a.get_mut(k as u64),
+                    _ => a.get(k as u64),
+                };
                 progress.leave(t);
                 sh.lookups.fetch_add(1, Ordering::SeqCst);
                 if let Some(v) = r {
@@ -1791,6 +1831,7 @@ pub fn stress_strategy(kind: Kind, async_pct: u32) -> BoxedStrategy<StressCase> 
                 let max_cost = units * (internal + 2);
                 let op = prop_oneof![
                     20 => sop_common(10, max_cost - internal),
+                    2 => (0u32..10, proptest::sample::select(vec![20u16, 100, 400, 1500]), any::<bool>()).prop_map(|(k, us, mutable)| SOp::GetLinger { k, us, mutable }),
                     clear_w.max(0) => Just(SOp::Clear),
                     1 => Just(SOp::Wait),
                     1 => (1i64..4).prop_map(move |u| SOp::UpdateMax { m: u * (internal + 2) * 3 }),
@@ -1799,6 +1840,7 @@ pub fn stress_strategy(kind: Kind, async_pct: u32) -> BoxedStrategy<StressCase> 
                 let op = if clear_w == 0 {
                     prop_oneof![
                         20 => sop_common(10, max_cost - internal),
+                        1 => (0u32..10, proptest::sample::select(vec![20u16, 100, 400]), any::<bool>()).prop_map(|(k, us, mutable)| SOp::GetLinger { k, us, mutable }),
                         1 => Just(SOp::Wait),
                         1 => (1i64..4).prop_map(move |u| SOp::UpdateMax { m: u * (internal + 2) * 3 }),
                         1 => (50u32..1500).prop_map(SOp::Advance),
